@@ -234,6 +234,9 @@ func compiles(re string) bool {
 }
 
 func (p c17) Run(c *fw.Case) {
+	if c.Idx%6 == 5 {
+		failedCalls(c) // call history: failed calls before the case must leave nothing behind
+	}
 	r := c.R
 	depth := 1 + r.IntN(5)
 	d := buildPtrDoc(c, depth)
